@@ -303,9 +303,16 @@ def check_primal(pep, handles, tau_primal, tau_dual, wrapper, fails):
 def check_certificate(pep, tau_dual, wrapper, fails, lmi_symmetric=True):
     """C01: objective - tau = sum lambda_k expr_k - <S, G> - sum <Z_m, T_m> as affine functions of (G, F); signs; PSD"""
     from PEPit.point import Point
-    t = tol(tau_dual)
     G, F, c = expr_coeffs(pep.objective)
     S = pep.residual
+    if tau_dual is None:            # primal mode: the bound certified is the constant of the identity itself
+        scalars = [o.eval_dual() for k_, o in wrapper.sent if k_ == 'scalar']
+        tau_dual = float(-sum(lam * expr_coeffs(o.expression)[2] for lam, (k_, o) in zip(scalars, [x for x in wrapper.sent if x[0] == 'scalar'])))
+        for k_, o in wrapper.sent:
+            if k_ != 'scalar':
+                Z_ = o.eval_dual()
+                tau_dual += float(sum(Z_[i, j] * expr_coeffs(o[i, j])[2] for i in range(o.shape[0]) for j in range(o.shape[1])))
+    t = tol(tau_dual)
     G = G + (S + S.T) / 2          # objective - ( ... - <S,G> )
     if np.min(np.linalg.eigvalsh((S + S.T) / 2)) < -20 * t:
         fails.append(('C01', 'residual.psd', 'residual has a negative eigenvalue %.3g' % np.min(np.linalg.eigvalsh((S + S.T) / 2))))
@@ -342,9 +349,19 @@ def run_program(name, seed, options=None):
     info = {'template': name, 'seed': seed, 'options': options}
     try:
         pep, h = models.build(name, seed)
-        tau_d = solve(pep, return_primal_or_dual='dual', **options)
+        options = dict(options)
+        mode = options.pop('return_primal_or_dual', 'dual')
+        tau_d = solve(pep, return_primal_or_dual=mode, **options)
         w = spy.wrappers[-1]
         info['tau'] = tau_d
+        if mode == 'primal' and tau_d is not None:
+            # the certificate of the solve is exposed whatever the mode of the returned number: the identity is checked against its own constant
+            try:
+                check_certificate(pep, None, w, fails, lmi_symmetric=h.get('symmetric_as_written', True) and h.get('lmi_symmetric_as_written', True)
+                                  and not h.get('class_lmi_nonsym', False))
+            except (ValueError, TypeError, AttributeError) as e:
+                fails.append(('C01', 'certificate_exposed', 'after a solve in primal mode that returned %r the multipliers are not exposed (%s: %s)' % (tau_d, type(e).__name__, str(e)[:80])))
+            return info, fails
         if tau_d is None:
             # every template is a bounded, feasible model: no value means that what was solved is not the declared model (or its certificate / instance is missing)
             for pid_ in ('C01', 'C02', 'C03', 'C04', 'C05', 'C07', 'C08', 'C11', 'C12', 'C13', 'C14', 'C15', 'C16', 'C17'):
